@@ -53,6 +53,9 @@ def _rows(inst, L):
         aub, bub = np.array([a, 2.0 * a]), np.array([0.0, 1.0 * L])
     elif k == "rankdef":
         aub, bub = np.array([a, b, a + b]), np.array([0.0, 0.0, 0.0])
+    elif k == "tie":             # a row that is reached exactly on the trust-region boundary
+        dl = inst["delta"] / float(inst.get("unit", 8)) * L
+        aub, bub = np.array([[1.0] * n, [1.0 if i == 0 else 0.0 for i in range(n)]]), np.array([dl, dl])
     elif k == "poly":
         r1 = np.array([-1.0, -1.0, 1.0][:n])
         r2 = np.array([0.0, 1.0, 1.0][:n]) if n > 2 else np.array([0.0, 1.0][:n])
@@ -228,7 +231,7 @@ def run_universe(tier):
     insts = []
     sizes = {}
     plan = (("bd1", 400, None), ("bd2", 800, None), ("bd2s", 300, None), ("bd3", 500, None), ("lin2", 800, None),
-            ("lin3", 500, None), ("lin2p", 800, "tan"), ("lin3p", 1200, "tan"), ("bd3r", 1500, "tan"),
+            ("lin3", 500, None), ("lin2t", 10 ** 9, "tan"), ("lin2p", 800, "tan"), ("lin3p", 1200, "tan"), ("bd3r", 1500, "tan"),
             ("nrm2", 1500, "nrm"), ("geo", 1200, "geo"),
             # the randomly drawn instances are cheap and catch rare numerical paths: all of them, every time
             ("rndt", 10 ** 9, "tan"), ("rndg", 10 ** 9, "geo"), ("rndn", 10 ** 9, "nrm"))
